@@ -137,7 +137,7 @@ func parseNode(t []string) (*node, []string, bool) {
 	case t[0] == "C" && len(t) >= 4:
 		c, okc := parseCondTok(t[1])
 		he, ok1 := p01(t[3])
-		if !okc || !validScopeTok(t[2]) || !ok1 {
+		if !okc || !validScopeTok(t[2]) || !ok1 || (c.kind == 'p' && he) { // port.Filter has no else
 			return nil, nil, false
 		}
 		n := &node{kind: 'C', cond: c, scope: t[2]}
